@@ -52,10 +52,17 @@ def _axis(cls, N):
     return st.just(int(cls))
 
 
+ROUGH = [13, 17, 19, 23, 26, 29, 31, 34, 37]      # axis lengths that are not 11-smooth (no 'fast' FFT length)
+
+
 def _shape(tier):
-    """both axes drawn independently inside an explicitly drawn parity class (forces odd/even/1 mixing and non-square shapes)"""
+    """both axes drawn independently inside an explicitly drawn parity class (forces odd/even/1 mixing and non-square shapes);
+    one draw in six replaces an axis by a length with a large prime factor"""
     N = NMAX[tier]
-    return st.sampled_from(_CLASSES).flatmap(lambda c: st.tuples(_axis(c[0], N), _axis(c[1], N)).map(list))
+    base = st.sampled_from(_CLASSES).flatmap(lambda c: st.tuples(_axis(c[0], N), _axis(c[1], N)).map(list))
+    rough = st.tuples(base, st.sampled_from(ROUGH), st.integers(0, 2)).map(
+        lambda t: [t[1], t[0][1]] if t[2] == 0 else [t[0][0], t[1]] if t[2] == 1 else [t[1], t[1]])
+    return st.one_of(base, base, base, base, base, rough)
 
 
 def _real(seed, shape, kind, salt):
@@ -356,7 +363,10 @@ def strat_tf(tier):
     arr_extra = st.one_of(*[st.fixed_dictionaries({'kind': st.just(k), 'salt': st.integers(0, 50), 'layout': U.layouts}) for k in sorted(ARRAY_KINDS)])
     spec = st.one_of(_tf_spec(), _tf_spec(), arr_extra)
     return st.fixed_dictionaries({
-        'shape': _shape(tier), 'seed': U.seeds, 'shift': st.booleans(), 'tfs': st.lists(spec, min_size=1, max_size=4),
+        'shape': _shape(tier), 'seed': U.seeds, 'shift': st.booleans(),
+        'tfs': st.one_of(st.lists(spec, min_size=1, max_size=4), st.lists(spec, min_size=1, max_size=4),
+                         st.tuples(spec, st.integers(2, 3)).map(lambda t: [t[0]] * t[1]),                        # the same entry repeated
+                         st.tuples(spec, spec).map(lambda t: [t[0], t[1], t[0]])),
         'grids': st.sampled_from(['library', 'library', 'user1d', 'user2d']), 'dx': st.sampled_from(TF_DX),
         'okind': st.sampled_from(['random', 'random', 'embedded', 'impulse']),
         'odtype': st.sampled_from(DTYPES), 'olayout': U.layouts, 'oscale': st.sampled_from(TF_OSCALE), 'glayout': U.layouts,
@@ -408,6 +418,7 @@ def check_tf(case, ctx):
         container = 'list'  # callables cannot be stacked
     vals, tfs = [], []
     stored = []
+    same_obj = {}
     for i, s in enumerate(specs):
         if s['kind'] == 'stored':
             # a callable that hands back an array it keeps (a precomputed OTF): that array is the caller's as well
@@ -417,7 +428,13 @@ def check_tf(case, ctx):
             tfs.append(lambda fr, _v=v: _v)
         elif s['kind'] in CALLABLE_KINDS:
             vals.append(np.broadcast_to(_tf_value(s, FX, FY, FR, FT), shape))
-            tfs.append(_tf_callable(s))
+            # the very same callable object when the same spec is listed again (a list like [blur, blur] applies it twice)
+            key = U.canon(s)
+            if key not in same_obj:
+                same_obj[key] = _tf_callable(s)
+            else:
+                ctx.label('same-callable-object-repeated')
+            tfs.append(same_obj[key])
         else:
             v = _tf_array(s, seed, shape)
             vals.append(_f64(v))
